@@ -185,4 +185,34 @@ func solveAll(obligs []*Oblig, outDir string, sec int, agree bool) {
 		}(i, ob)
 	}
 	wg.Wait()
+	// Second chance for timeouts: a goal that ran out of time while up to 18
+	// solver processes shared the machine is tried again alone, with three times
+	// the budget, before it is reported. (A timeout is never a refutation; this
+	// only keeps machine load from turning into an alarm.)
+	retried, nretry := false, 0
+	for i, ob := range obligs {
+		if ob.Canary || ob.Result != "timeout" || cache[ob.SMT] != ob {
+			continue
+		}
+		if nretry++; nretry > 3 {
+			break
+		}
+		file := filepath.Join(outDir, fmt.Sprintf("o%04d.smt2", i))
+		tmp := &Oblig{}
+		solveOne(tmp, file, 3*sec, agree)
+		if tmp.Result != "timeout" {
+			ob.Solver, ob.TimeMs, ob.Model, ob.Output, ob.Result = tmp.Solver+"(retry)", tmp.TimeMs, tmp.Model, tmp.Output, tmp.Result
+			retried = true
+			if tmp.Result == "unsat" {
+				os.Remove(file)
+			}
+		}
+	}
+	if retried {
+		for _, ob := range obligs {
+			if prev := cache[ob.SMT]; prev != nil && prev != ob && strings.HasSuffix(ob.Solver, "(cached)") {
+				ob.Result, ob.Solver, ob.Model, ob.Output = prev.Result, prev.Solver+"(cached)", prev.Model, prev.Output
+			}
+		}
+	}
 }
